@@ -130,12 +130,13 @@ static void bfs_state_hook(const bfs_hist *h)
 enum { F_NONE, F_REJECT, F_OWNER, F_MALFORMED, F_VANISH, F_DANGLING, F_GROUP, F_SYMLINK, F_FILEPERM, F_DIRPERM, F_OPTION, F_N };   /* F_OPTION stays last */
 static const char *FN[F_N] = { "none", "callback-rejects", "foreign-owner", "malformed-line", "file-vanishes", "dangling-symlink", "foreign-group (group required)",
                                "symlink (symlinks refused)", "file-mode-refused", "directory-mode-refused", "unknown-option" };
-static const char *EPN[6] = { "econf_readFileWithCallback", "econf_readConfigWithCallback", "econf_readDirsWithCallback", "econf_readDirsHistoryWithCallback",
-                              "econf_readConfigWithCallback + CONFIG_DIRS option", "econf_readConfigWithCallback + CONFIG_DIRS option, drop-ins only (config name NULL)" };
-#define NEP 6
+static const char *EPN[7] = { "econf_readFileWithCallback", "econf_readConfigWithCallback", "econf_readDirsWithCallback", "econf_readDirsHistoryWithCallback",
+                              "econf_readConfigWithCallback + CONFIG_DIRS option", "econf_readConfigWithCallback + CONFIG_DIRS option, drop-ins only (config name NULL)",
+                              "econf_readConfigWithCallback + PARSING_DIRS and CONFIG_DIRS options, each given twice (the last occurrence counts)" };
+#define NEP 7
 static const char *UNI[T_MAXU] = { "10-a.conf", "9-b.conf", "B.conf", "README", "a.conf" };
 static int nu = 2, pairs;
-static char root[300], options[700];
+static char root[300], options[2200];
 static tree_state want;
 static int f1kind, f1pos, f2kind, f2pos;      /* positions are 1-based indices into the reference processing list, 0 = none */
 static int plain_variant;                     /* use the entry point without callback (when no fault needs the callback) */
@@ -148,7 +149,7 @@ static void setup(int ep)
   ts.ncd = 1; snprintf(ts.cd[0], sizeof ts.cd[0], ".conf.d");
   ts.nu = ep == 0 ? 0 : nu;
   for (int i = 0; i < ts.nu; i++) ts.uname[i] = UNI[i];
-  if (ep == 1 || ep == 4) {
+  if (ep == 1 || ep == 4 || ep == 6) {
     ts.nlayers = 3; const char *sub[3] = { "/usr/lib", "/run", "/etc" };
     for (int l = 0; l < 3; l++) snprintf(ts.layer_dir[l], sizeof ts.layer_dir[l], "%s%s/proj", root, sub[l]);
   } else if (ep == 5) {
@@ -236,9 +237,12 @@ static void exec(void)
   ledger_reset(); ledger_in_lib = 1;
   econf_file *kf = SENT_KF, *own = NULL; econf_file **hist = SENT_HIST; size_t hsize = 777;
   econf_err rc = ECONF_SUCCESS;
-  int cfgep = mc_tag == 1 || mc_tag == 4 || mc_tag == 5;
+  int cfgep = mc_tag == 1 || mc_tag == 4 || mc_tag == 5 || mc_tag == 6;
   const char *opt_ok = mc_tag == 1 ? "JOIN_SAME_ENTRIES=1;ROOT_PREFIX=" : mc_tag == 4 ? "CONFIG_DIRS=.conf.d;ROOT_PREFIX=" : mc_tag == 5 ? "CONFIG_DIRS=.x.d:.y.d;PYTHON_STYLE=1;ROOT_PREFIX=" : "";
   if (cfgep || unknown_option) {
+    if (mc_tag == 6) snprintf(options, sizeof options, "PARSING_DIRS=/nonexistent-a:/nonexistent-b:/nonexistent-c:/nonexistent-d;CONFIG_DIRS=.nope.d:.nope2.d;PARSING_DIRS=%s:%s:%s;CONFIG_DIRS=.conf.d%s",
+                              ts.layer_dir[0], ts.layer_dir[1], ts.layer_dir[2], unknown_option ? ";NO_SUCH_OPTION=1" : "");
+    else
     snprintf(options, sizeof options, "%s%s%s", opt_ok, cfgep ? root : "", unknown_option ? (cfgep ? ";NO_SUCH_OPTION=1" : "NO_SUCH_OPTION=1") : "");
     rc = econf_newKeyFile_with_options(&own, options);
     mc_st->libcalls++;
@@ -254,7 +258,7 @@ static void exec(void)
   }
   switch (mc_tag) {
   case 0: rc = use_cb ? econf_readFileWithCallback(&kf, t_path[0], "=", "#", cb, &cbx) : econf_readFile(&kf, t_path[0], "=", "#"); break;
-  case 1: case 4: case 5: kf = own;
+  case 1: case 4: case 5: case 6: kf = own;
     rc = use_cb ? econf_readConfigWithCallback(&kf, "proj", "/usr/lib", mc_tag == 5 ? NULL : "cfg", "conf", "=", "#", cb, &cbx) : econf_readConfig(&kf, "proj", "/usr/lib", mc_tag == 5 ? NULL : "cfg", "conf", "=", "#"); break;
   case 2: rc = use_cb ? econf_readDirsWithCallback(&kf, ts.layer_dir[0], ts.layer_dir[1], "cfg", "conf", "=", "#", cb, &cbx) : econf_readDirs(&kf, ts.layer_dir[0], ts.layer_dir[1], "cfg", "conf", "=", "#"); break;
   default: rc = use_cb ? econf_readDirsHistoryWithCallback(&hist, &hsize, ts.layer_dir[0], ts.layer_dir[1], "cfg", "conf", "=", "#", cb, &cbx)
